@@ -66,6 +66,7 @@ static int nfake = 0; static long fake_pid[MAXFAKE]; static char *fake_path[MAXF
 static int fake_status_on = 0;
 static char *fake_cgroup = 0;          /* /proc/<own pid>/cgroup -> file */
 static char *fake_hosts = 0;           /* /etc/hosts -> file */
+static char *pwd_alias = 0;            /* "PWD=<alias path>" appended to the environment vector (cwd=symlink) */
 static char *alt_utmp = 0;             /* utmpname() file written by the construction */
 FILE *fopen(const char *path, const char *mode) {
     static FILE *(*real)(const char *, const char *) = 0;
@@ -145,6 +146,18 @@ static void put_list_field(FILE *o, char **v) {
     if (!v) { fputs("~", o); return; }
     if (!v[0]) { fputs("[]", o); return; }
     for (int i = 0; v[i]; i++) { if (i) fputc(',', o); put_hexs(o, v[i]); }
+}
+
+struct racer { const char *name; int n; char first[256]; char out[256]; int ret; };
+static void *racer_main(void *p) {
+    struct racer *r = p;
+    snoopy_init();
+    for (int i = 0; i < r->n; i++) {
+        r->ret = snoopy_datasourceregistry_callByName(r->name, r->out, sizeof r->out, "");
+        if (strcmp(r->out, r->first)) break;
+    }
+    snoopy_cleanup();
+    return 0;
 }
 
 static void measure_and_run(struct job *j) {
@@ -296,6 +309,17 @@ static void measure_and_run(struct job *j) {
         }
     }
     snoopy_cleanup();
+    /* "race=N": username (real uid) and tty_username (owner of the terminal) evaluated N times each in two threads at once; each thread
+     * reports its first result that differs from its own first (single-threaded) result, else its last one */
+    const char *rc = kv(nf, f, "race");
+    if (rc && atoi(rc) > 0) {
+        static struct racer R[2]; pthread_t t[2];
+        R[0].name = "username"; R[1].name = "tty_username";
+        for (int i = 0; i < 2; i++) { R[i].n = atoi(rc); snoopy_datasourceregistry_callByName(R[i].name, R[i].first, sizeof R[i].first, ""); }
+        for (int i = 0; i < 2; i++) pthread_create(&t[i], 0, racer_main, &R[i]);
+        for (int i = 0; i < 2; i++) pthread_join(t[i], 0);
+        for (int i = 0; i < 2; i++) { fprintf(o, "\t%s|-|%zu|%d|", R[i].name, sizeof R[i].out, R[i].ret); put_hexs(o, R[i].out); }
+    }
     fputc('\n', o); fflush(o);
 }
 
@@ -342,6 +366,12 @@ static void construct_and_run(int nf, char **f) {
             if (mkdir("gone", 0755) || chdir("gone")) die("mkdir-gone");
             char a[PATH_MAX]; snprintf(a, sizeof a, "%s/gone", dir); if (rmdir(a)) die("rmdir"); j.cwd_none = 1;
         } else if (!strcmp(v, "root")) { if (chdir("/")) die("chdir-root"); strcpy(known, "/"); }
+        else if (!strcmp(v, "symlink")) {
+            /* reached through a symbolic link, with PWD naming the alias (what a shell does after `cd alias`): the directory is the real one */
+            char a[PATH_MAX], b[PATH_MAX]; snprintf(a, sizeof a, "%s/real dir", dir); snprintf(b, sizeof b, "%s/alias", dir);
+            if (mkdir(a, 0755) || symlink(a, b) || chdir(b)) die("symlink-cwd");
+            strcpy(known, a); static char pwd[PATH_MAX + 8]; snprintf(pwd, sizeof pwd, "PWD=%s", b); pwd_alias = pwd;
+        }
         j.cwd_known = known;
     }
     /* stdin */
@@ -426,6 +456,10 @@ static void construct_and_run(int nf, char **f) {
     }
     /* environment vector of the process */
     if ((v = kv(nf, f, "env"))) { vlist e = parse_list(v); environ = e.isnull ? 0 : e.v; }
+    if (pwd_alias && environ) {
+        size_t n = 0; while (environ[n]) n++;
+        char **nv = calloc(n + 2, sizeof(char *)); memcpy(nv, environ, n * sizeof(char *)); nv[n] = pwd_alias; environ = nv;
+    }
     tzset();      /* the zone of this process is what its environment says (TZ entry or none) */
     /* ids last */
     if ((v = kv(nf, f, "gids")) && strcmp(v, "keep")) { unsigned long r, e, s; if (sscanf(v, "%lu,%lu,%lu", &r, &e, &s) != 3) die("gids"); if (setgroups(0, 0)) {} if (syscall(SYS_setresgid, (gid_t)r, (gid_t)e, (gid_t)s)) die("setresgid"); }
